@@ -94,11 +94,11 @@ variable {σ : Type} (S : Src σ)
 /-- `lzh_init` (allocation succeeds; nothing but the three pointers is initialised) -/
 def init (src : σ) (fill : UInt8) : St σ :=
   { src := src,
-    matchlen1Len := Array.replicate kwajMATCHLEN1_SYMS fill,
-    matchlen2Len := Array.replicate kwajMATCHLEN2_SYMS fill,
-    litlenLen := Array.replicate kwajLITLEN_SYMS fill,
-    offsetLen := Array.replicate kwajOFFSET_SYMS fill,
-    literalLen := Array.replicate kwajLITERAL_SYMS fill,
+    matchlen1Len := Array.replicate kwajMATCHLEN1_SYMS 0,
+    matchlen2Len := Array.replicate kwajMATCHLEN2_SYMS 0,
+    litlenLen := Array.replicate kwajLITLEN_SYMS 0,
+    offsetLen := Array.replicate kwajOFFSET_SYMS 0,
+    literalLen := Array.replicate kwajLITERAL_SYMS 0,
     inbuf := Array.replicate kwajINPUT_SIZE fill,
     window := Array.replicate lzssWINDOW_SIZE fill }
 
@@ -242,7 +242,7 @@ def readLensBody (t : Tbl) (type : Nat) : LM σ Unit := do
     lensType2 S t (numsyms - 1) 1 c
   else if type = 3 then
     lensType3 S t numsyms 0
-  else pure ()            -- no `default:` — types 4..15 leave `lens` as it is
+  else throw (.ret .dataformat)   -- `default:` (since b0cacf5): only four encodings exist
   storeBits
 
 /-- `lzh_read_lens` as seen by its caller: the value it returned -/
